@@ -1650,17 +1650,8 @@ def percent_literal_in_model_creation_sql(case, outcome, atoms):
                                      'collect_sql_schema_editor' in str(a[3]))]
 
 
-@explainer
-def fresh_install_replays_rename_chain(case, outcome, atoms):
-    """Installing an app from scratch simulates its whole SEQUENCE (to find the
-    upgrade method); a SEQUENCE that renames one model more than once hits the
-    optimiser's RenameModel chain handling (F-C03-4) and the fresh install
-    itself fails."""
-    if 'model_level' not in (outcome.get('history_flags') or []):
-        return atoms
-    return [a for a in atoms if not (a[0] == 'run_failed' and str(a[1]).startswith('fresh') and
-                                     a[2] in ('EvolutionBaselineMissingError', 'CommandError',
-                                              'MissingSignatureError'))]
+# (F-C04-2, fresh install of a SEQUENCE that renames one model twice, no longer occurs since
+# 42a84f0 - X-F-C04-2; its explainer is gone)
 
 
 @explainer
@@ -1800,6 +1791,52 @@ def model_name_reused_after_delete_in_one_run(case, outcome, atoms):
 
 
 @explainer
+def table_name_reused_by_new_model_in_one_run(case, outcome, atoms):
+    """The tables of new models (and of the ManyToManyFields they bring) are
+    created before the pending evolutions of the same run are applied.  A table
+    name that a pending evolution vacates (RenameField(..., db_table=...) of a
+    ManyToManyField, RenameModel(..., db_table=...), DeleteModel, DeleteField of a
+    ManyToManyField) and that a later release gives to a new model collides in a
+    single-run upgrade from before the vacating evolution: 'table "x" already
+    exists'.  Upgrading version by version works."""
+    import re
+    from . import history as H
+    from . import specs as S
+    h = case.get('history') or {}
+    if not any(s_['type'] in ('new_model', 'new_app') for s_ in h.get('steps', [])):
+        return atoms
+    try:
+        vers = H.versions(h)
+    except Exception:
+        return atoms
+
+    def owners(spec):
+        out = {}
+        for a, _n, m in S.iter_models(spec):
+            out[S.table_of(a, m)] = m.get('uid')
+            for f in m['fields']:
+                if f['kind'] == 'ManyToMany':
+                    out[S.m2m_table_of(a, m, f)] = f.get('uid')
+        return out
+    own = [owners(v['spec']) for v in vers]
+    last = own[-1]
+
+    def excused(a):
+        name = str(a[1])
+        if a[0] != 'run_failed' or not (name.startswith('direct') and name[6:].isdigit()):
+            return False
+        i = int(name[6:])
+        mt = re.search(r'table "([^"]+)" already exists', str(a[4]))
+        if not mt or i >= len(own):
+            return False
+        t = mt.group(1)
+        # the table exists at the start of the run under one holder and belongs to another
+        # (newly created) holder in the latest version
+        return t in own[i] and t in last and own[i][t] is not None and own[i][t] != last[t]
+    return [a for a in atoms if not excused(a)]
+
+
+@explainer
 def rename_model_to_new_table_through_evolver(case, outcome, atoms):
     """RenameModel(..., db_table=<new name>) cannot be applied through the
     Evolver: the renamed model's table does not exist yet, so the Evolver
@@ -1875,24 +1912,46 @@ def relation_to_app_installed_in_same_run(case, outcome, atoms):
     """Tasks are prepared (their mutations simulated) in INSTALLED_APPS order,
     before the dependency graph orders execution: an evolution that adds a
     relation to a model of an app that is installed in the same run, and that
-    is listed later, cannot find that app's signature."""
+    is listed later, cannot find that app's signature; likewise a relation to a
+    model that an existing, later-listed app gains in the same run (that app's
+    own prepare() is what adds the new model's signature)."""
     h = case.get('history') or {}
     new_apps = set()
+    new_models = {}         # (app, model name) introduced by a later release of an existing app -> step
     trigger = False
-    for s_ in h.get('steps', []):
+    model_targets = {}
+    for k_, s_ in enumerate(h.get('steps', [])):
         if s_['type'] == 'new_app':
             new_apps.add(s_['app'])
+        elif s_['type'] == 'new_model':
+            new_models[(s_['app'], s_['model']['name'])] = k_
         elif s_['type'] == 'evolve':
             for m in s_['seq']:
-                if m['kind'] == 'AddField' and m['field'].get('target') and \
-                        m['field']['target'][0] in new_apps:
-                    trigger = True
-    if not trigger:
+                if m['kind'] == 'AddField' and m['field'].get('target'):
+                    tgt = tuple(m['field']['target'])
+                    if tgt[0] in new_apps:
+                        trigger = True
+                    # the same for a model that an existing, later-prepared app gains in the
+                    # same run: its signature is added by that app's own prepare()
+                    if tgt in new_models and tgt[0] != m['app']:
+                        model_targets['"%s.%s"' % tgt] = new_models[tgt]
+    if not trigger and not model_targets:
         return atoms
-    return [a for a in atoms if not (a[0] == 'run_failed' and
-                                     a[2] in ('MissingSignatureError', 'CommandError') and
-                                     ('get_app_sig' in str(a[3]) or
-                                      'Unable to find an application signature' in str(a[4])))]
+
+    def excused(a):
+        if a[0] != 'run_failed' or a[2] not in ('MissingSignatureError', 'CommandError'):
+            return False
+        if trigger and ('get_app_sig' in str(a[3]) or
+                        'Unable to find an application signature' in str(a[4])):
+            return True
+        # only the single-run upgrade from a version that does not have the model yet
+        # (version i has steps[:i] applied)
+        name = str(a[1])
+        if not (name.startswith('direct') and name[6:].isdigit()):
+            return False
+        return any(('Unable to find a model signature for %s' % t) in str(a[4]) and
+                   int(name[6:]) <= k for t, k in model_targets.items())
+    return [a for a in atoms if not excused(a)]
 
 
 @explainer
